@@ -723,8 +723,8 @@ void caseOrder(vrt::Case& c)
 int main(int argc, char** argv)
 {
   vector<vrt::Group> groups = {
-    { "history", 51840, 2592000, caseHistory, 600, false },
-    { "order", 4500, 90000, caseOrder, 600, false },
+    { "history", 51840, 2592000, caseHistory, 1800, false },
+    { "order", 4500, 90000, caseOrder, 1800, false },
   };
   vrt::Meta meta;
   meta.rule = "history: index -> (scheme 2/3/5 points, 1..4 variables, total degree 0..5, wrapped as Function / FirstOrderDerivable / SecondOrderDerivable, cross derivatives on/off); random "
